@@ -101,6 +101,15 @@ Proof.
   split; [|exact E1]. rewrite fws_app_quiet by exact Hq. reflexivity.
 Qed.
 
+Lemma start_mux_shape c s :
+  exists rd, snd (start_mux c s) = [OMkdirAll PDir; OReadFile PLive rd] /\ m_opened (fst (start_mux c s)) = false /\
+             (rd = false -> fst (start_mux c s) = new_mux c).
+Proof.
+  unfold start_mux. destruct (fs_lookup PLive s) as [f|].
+  - exists true. cbn. split; [reflexivity|]. split; [destruct (next_seq _) as [[q n]|]; reflexivity|discriminate].
+  - exists false. cbn. auto.
+Qed.
+
 Definition alive_of (w : world) : bool := match w_mux w with Some _ => true | None => false end.
 Definition opened_of (w : world) : bool := match w_mux w with Some m => m_opened m | None => false end.
 
@@ -120,7 +129,8 @@ Proof.
       rewrite fws_app_quiet by exact Hq. rewrite IH. reflexivity.
     + cbn [app]. rewrite IH. reflexivity.
   - destruct e; cbn [step w_mux w_fs accepted]; try (cbn [app]; rewrite IH; reflexivity).
-    + cbn [app fws]. rewrite IH. reflexivity.
+    + pose proof (start_mux_shape c s) as (rd & Hs & Ho & _). destruct (start_mux c s) as [m1 o1]. cbn [fst snd] in Hs, Ho. subst o1.
+      cbn [app fws]. rewrite IH. unfold alive_of, opened_of. cbn [w_mux]. rewrite Ho. reflexivity.
     + destruct ((c_mode c =? 1) || (c_mode c =? 2)); cbn [app fws]; rewrite IH; reflexivity.
 Qed.
 
@@ -132,23 +142,25 @@ Lemma wrs_app a : forall cur next b,
 Proof.
   induction a as [|o a IH]; intros cur next b; cbn [app wrs]; [reflexivity|].
   destruct o; try apply IH.
-  - destruct p; try reflexivity. destruct (id =? next); [apply IH|reflexivity].
+  - destruct p; try reflexivity. destruct (match next with Some n => id =? n | None => true end); [apply IH|reflexivity].
   - destruct cur as [q|]; [|reflexivity]. destruct (path_eqb p q); [apply IH|reflexivity].
   - destruct cur as [q|]; [|reflexivity]. destruct (path_eqb p q); [apply IH|reflexivity].
+  - destruct p; try apply IH. destruct found; apply IH.
 Qed.
 
 Definition plain_op (o : op) : Prop :=
-  match o with OCreate _ | OWrite _ _ | OClose _ | OMkdirAll _ => False | _ => True end.
+  match o with OCreate _ | OWrite _ _ | OClose _ | OMkdirAll _ | OReadFile PLive _ => False | _ => True end.
 
 Lemma wrs_plain l : Forall plain_op l -> forall cur next, wrs cur next l = Some (cur, next).
 Proof.
   induction l as [|o l IH]; intros HF cur next; [reflexivity|].
-  inversion HF as [|? ? Ho HF']; subst. destruct o; cbn in Ho; try contradiction; cbn [wrs]; now apply IH.
+  inversion HF as [|? ? Ho HF']; subst. destruct o; cbn in Ho; try contradiction; cbn [wrs]; try now apply IH.
+  destruct p; try contradiction; now apply IH.
 Qed.
 
 (* K: what the tracked state must say about a muxer *)
-Definition tracks (m : mux) (cur : option path) (next : Z) : Prop :=
-  next = nclosed m + b2z (m_opened m) /\
+Definition tracks (m : mux) (cur : option path) (next : option Z) : Prop :=
+  match next with Some n => n = nclosed m + b2z (m_opened m) | None => m_opened m = false end /\
   (m_opened m = true -> cur = Some (m_cur m) /\ exists now, m_cur m = PTs now (nclosed m)).
 
 Lemma write_record_plain c m s : Forall plain_op (snd (write_record c m s)).
@@ -176,7 +188,7 @@ Lemma close_tracks c m s e cur next :
 Proof.
   intros [Hn Hc]. cbn zeta. unfold close_fragment. destruct (m_opened m) eqn:Ho; cbn [negb].
   - destruct (Hc eq_refl) as [-> (now & Hcur)].
-    set (m0 := mkmux false _ _ _ _ _ _ _ _). set (m1 := incr_frag c m0). set (ops1 := [_; _; _]).
+    set (m0 := mkmux false _ _ _ _ _ _ _ _ _ _). set (m1 := incr_frag c m0). set (ops1 := [_; _; _]).
     assert (Hm1 : m_opened m1 = false /\ nclosed m1 = nclosed m + 1).
     { unfold m1, incr_frag, nclosed. destruct (m_nfrags m0 =? c_num c); cbn; split; try reflexivity; lia. }
     destruct (if (c_mode c =? 0) || (c_mode c =? 1) then write_record c m1 (apply_all s ops1) else (m1, [])) as [m2 ops2] eqn:E.
@@ -190,7 +202,7 @@ Proof.
     + unfold ops1. cbn [app wrs]. rewrite path_eqb_refl.
       apply wrs_plain. apply Forall_app. split; [exact Hp2|].
       destruct (c_mode c =? 2); [|constructor]. cbn zeta. destruct (fi_named _); repeat constructor.
-    + split; [|congruence]. rewrite ?Ho in Hn. rewrite Ho2, Hn2, Hn. cbn [b2z]. lia.
+    + split; [|congruence]. destruct next as [n|]; [|congruence]. rewrite ?Ho in Hn. rewrite Ho2, Hn2, Hn. cbn [b2z]. lia.
   - cbn [fst snd]. split; [reflexivity|]. split; [split; [rewrite Ho; exact Hn|rewrite Ho; exact Hc]|exact Ho].
 Qed.
 
@@ -201,8 +213,9 @@ Lemma open_tracks c m ts d now cur next :
 Proof.
   intros [Hn _] Ho. cbn zeta. unfold open_fragment. cbn [fst snd].
   rewrite Ho in Hn. cbn [b2z] in Hn.
-  exists (Some (PTs now (m_frag m + m_nfrags m))), (next + 1). cbn [wrs].
-  assert (E : (m_frag m + m_nfrags m =? next) = true) by (apply Z.eqb_eq; unfold nclosed in Hn; lia).
+  exists (Some (PTs now (m_frag m + m_nfrags m))), (Some (m_frag m + m_nfrags m + 1)). cbn [wrs].
+  assert (E : match next with Some n => m_frag m + m_nfrags m =? n | None => true end = true).
+  { destruct next as [n|]; [|reflexivity]. apply Z.eqb_eq; unfold nclosed in Hn; lia. }
   rewrite E, path_eqb_refl. split; [reflexivity|].
   split; [unfold nclosed in *; cbn; lia|]. intros _. split; [reflexivity|]. exists now. reflexivity.
 Qed.
@@ -256,7 +269,7 @@ Proof.
   destruct B1 as [_ Hc]. destruct (Hc Ho) as [-> _]. now rewrite path_eqb_refl.
 Qed.
 
-Definition wtracks (w : world) (cur : option path) (next : Z) : Prop :=
+Definition wtracks (w : world) (cur : option path) (next : option Z) : Prop :=
   forall m, w_mux w = Some m -> tracks m cur next.
 
 Lemma tracks_patpmt m b cur next : tracks m cur next -> tracks (with_patpmt m b) cur next.
@@ -278,19 +291,22 @@ Proof.
       rewrite wrs_app, A. apply IH. intros m0 E. discriminate.
     + cbn [app]. apply IH. intros m0 E. injection E as <-. exact HT.
   - destruct e; cbn [step w_mux w_fs]; try (cbn [app]; apply IH; intros m0 E; discriminate).
-    + cbn [app wrs]. apply IH. intros m0 E. cbn in E. injection E as <-.
-      unfold tracks, new_mux, nclosed. cbn. split; [reflexivity|discriminate].
+    + pose proof (start_mux_shape c s) as (rd & Hs & Ho & Hnew). destruct (start_mux c s) as [m1 o1]. cbn [fst snd] in Hs, Ho, Hnew. subst o1.
+      cbn [app wrs]. destruct rd.
+      * apply IH. intros m0 E. cbn in E. injection E as <-. split; [exact Ho|congruence].
+      * apply IH. intros m0 E. cbn in E. injection E as <-. rewrite (Hnew eq_refl).
+        unfold tracks, new_mux, nclosed. cbn. split; [reflexivity|discriminate].
     + destruct ((c_mode c =? 1) || (c_mode c =? 2)); cbn [app wrs]; apply IH; intros m0 E; discriminate.
 Qed.
 
-Theorem segments_in_sequence c evs : exists r, wrs None 0 (run c evs) = Some r.
+Theorem segments_in_sequence c evs : exists r, wrs None None (run c evs) = Some r.
 Proof. unfold run. apply sequence_from. intros m E. discriminate. Qed.
 
 Lemma open_discont c m s ts d now :
   Inv c m s -> cur_discont c (fst (open_fragment c m ts d now)) = d.
 Proof.
   intros HI. unfold cur_discont, open_fragment, get_frag, get_slot. cbn [fst m_frags m_nfrags].
-  change (slot c (mkmux true ts (m_recmax m) (m_nfrags m) (m_frag m) _ (m_patpmt m) _ _) (m_nfrags m)) with (slot c m (m_nfrags m)).
+  change (slot c (mkmux true ts (m_recmax m) (m_nfrags m) (m_frag m) _ (m_patpmt m) _ _ _ _) (m_nfrags m)) with (slot c m (m_nfrags m)).
   rewrite nth_set_nth_eq; [reflexivity|].
   destruct HI as [H1 _ H3 _ _ _ _ _ _ _ _ _ _]. rewrite H3. unfold slot. apply mod_to_nat_lt.
   assert (2 <= cap c) by (apply cap_pos; lia). lia.
@@ -342,7 +358,7 @@ Proof.
       destruct (reopen c m1 (apply_all s o1) ts b false now) as [m3 o3] eqn:E3. cbn [fst snd] in *.
       intros _. destruct b; [now left|right].
       destruct (R3 m3 o3 I1 Hpp eq_refl) as (_ & _ & _ & _ & Hsame). rewrite (Hsame eq_refl). now apply B1.
-    + destruct (upd_dur_cur c m s ts HI Ho Ef) as (A2 & _ & _ & D2 & _).
+    + destruct (upd_dur_cur c m s ts HI Ho Ef) as (A2 & _ & _ & _ & D2 & _).
       destruct (f_ltb _ _); [cbn; discriminate|].
       rewrite <- D2 in Hpp.
       destruct (reopen_start c _ s ts b false now A2 Hpp) as (A3 & _).
